@@ -2,6 +2,9 @@ package harness
 
 import (
 	"fmt"
+	"strings"
+
+	"github.com/shopspring/decimal"
 
 	"knutsim/simrt"
 )
@@ -192,6 +195,7 @@ func (c01) Gen(r *simrt.Rand, idx int, tier string) *Case {
 	if g.BusyDay {
 		c.Scheds = append(c.Scheds, RandSched(r), RandSched(r), RandSched(r))
 	}
+	c.N = idx
 	return c
 }
 
@@ -228,6 +232,29 @@ func (c01) Eval(c *Case) (*Violation, bool) {
 		if v := checkTotals(t, fl.Val); v != nil {
 			v.Detail = o.Stdout
 			return v, false
+		}
+	}
+	if c.N%10 == 3 && !vac {
+		// the same report as CSV with an explicit number of digits: Delta is zero there as well
+		cv := append([]string{"balance", "--color=false", "--csv", "--digits", fmt.Sprint(c.N % 4)}, c.Args...)
+		cv = append(cv, c.L.Main())
+		o := Run(c.specFor(c.Scheds[0], files, cv))
+		if o.OK() {
+			for _, l := range strings.Split(o.Stdout, "\n") {
+				f := strings.Split(l, ",")
+				if len(f) < 3 || f[0] != "Delta" {
+					continue
+				}
+				for _, x := range f[2:] {
+					x = strings.TrimSpace(x)
+					if x == "" {
+						continue
+					}
+					if v, err := decimal.NewFromString(x); err == nil && !v.IsZero() {
+						return &Violation{Signature: c.Sub + ":delta-nonzero:csv", Msg: fmt.Sprintf("Delta line of the CSV report: %s", l), Detail: fmt.Sprintf("argv: %v\n%s", cv, o.Stdout)}, false
+					}
+				}
+			}
 		}
 	}
 	return nil, vac
